@@ -144,9 +144,8 @@ def run_case(case, R):
                     elif verdict[0] == A:
                         R.check(ops.read_matches(node, got, verdict), "read-back", "%s:%s" % (name, node["kind"]),
                                 lambda: "%s = %r accepted, reads back %r, normal form is %r" % (".".join(out.target), info["value"], got, verdict[1]))
-                    else:
-                        R.fail("accepted-invalid", "%s:%s" % (name, node["kind"]),
-                               "%s = %r was accepted although: %s" % (".".join(out.target), info["value"], verdict[1]))
+                    # (a value the reference rejects but the route accepted is only a C01 matter if what is then
+                    #  *held* is invalid - the sweep below decides that; exactness of validation is C05's)
                     after = worlds.snapshot(cfg, cc)
                     R.check(_without(before, out.target) == _without(after, out.target), "collateral", name,
                             lambda: "assigning %s changed something else: %s" % (".".join(out.target), worlds.diff(_without(before, out.target), _without(after, out.target))))
@@ -164,8 +163,6 @@ def run_case(case, R):
                             got = getattr(cfg, key)
                             R.check(ops.read_matches(node, got, verdict), "read-back", "ctor:" + node["kind"],
                                     lambda: "ctor %s=%r reads back %r, normal form %r" % (key, value, got, verdict[1]))
-                        elif verdict[0] == REJ:
-                            R.fail("accepted-invalid", "ctor:" + node["kind"], "constructor accepted %s=%r although: %s" % (key, value, verdict[1]))
                 elif name in ("load_tree", "loads") or (name == "assign_sub" and info.get("how") == "dict"):
                     base = () if name != "assign_sub" else out.target
                     root_node = spec if name != "assign_sub" else info["node"]
@@ -180,9 +177,6 @@ def run_case(case, R):
                                 continue
                             R.check(ops.read_matches(node, got, verdict), "read-back", "%s:%s" % (name, node["kind"]),
                                     lambda: "%s loaded %s=%r, reads back %r, normal form %r" % (name, ".".join(base + path), basic, got, verdict[1]))
-                        elif verdict[0] == REJ:
-                            R.fail("accepted-invalid", "%s:%s" % (name, node["kind"]),
-                                   "%s accepted %s=%r although: %s" % (name, ".".join(base + path), basic, verdict[1]))
                 elif name == "cmdline":
                     final = {}
                     for path, (node, text) in info["supplied"].items():
